@@ -1604,3 +1604,536 @@ Example merge_sorted_ex :
      Examples.V kb 4 [2]].
 Proof. vm_compute. auto. Qed.
 
+(** * 9. Per-key locality and the single-delete discipline *)
+
+(** the versions of key [k], newest first *)
+Definition kents (k : key) (l : list entry) : list entry :=
+  filter (fun e => key_eqb (ukey e) k) l.
+
+Lemma kents_cons k e l :
+  kents k (e :: l) = if key_eqb (ukey e) k then e :: kents k l else kents k l.
+Proof. reflexivity. Qed.
+
+Lemma kents_app k a b : kents k (a ++ b) = kents k a ++ kents k b.
+Proof.
+  induction a as [|x a IH]; [reflexivity|]. cbn [app]. rewrite !kents_cons, IH.
+  destruct (key_eqb (ukey x) k); reflexivity.
+Qed.
+
+Lemma kents_in k l x : In x (kents k l) <-> In x l /\ ukey x = k.
+Proof. unfold kents. rewrite filter_In, key_eqb_eq. tauto. Qed.
+
+Lemma kents_nil k l : (forall x, In x l -> ukey x <> k) -> kents k l = [].
+Proof.
+  induction l as [|e l IH]; intros H; [reflexivity|]. rewrite kents_cons.
+  assert (key_eqb (ukey e) k = false) as -> by (apply key_eqb_neq; apply H; now left).
+  apply IH. intros x HI. apply H. now right.
+Qed.
+
+Lemma kents_subseq k l : subseq (kents k l) l.
+Proof.
+  induction l as [|e l IH]; [constructor|]. rewrite kents_cons.
+  destruct (key_eqb (ukey e) k); [now apply subseq_keep | now apply subseq_skip].
+Qed.
+
+Lemma kents_ssorted k l : ssorted l = true -> ssorted (kents k l) = true.
+Proof. apply subik_ssorted. apply subseq_subik, kents_subseq. Qed.
+
+(** the mode as seen by the versions of key [k] *)
+Definition dr_for (k : key) (dr : dmode) (l : list entry) : dmode :=
+  match dr with
+  | DropNext => match l with
+                | e :: _ => if key_eqb (ukey e) k then DropNext else NoDrain
+                | [] => NoDrain
+                end
+  | d => d
+  end.
+
+Lemma outs_drain_irrelevant W evict flt k' xs :
+  (forall x, In x xs -> ukey x <> k') ->
+  outs W evict flt (Drain k') xs = outs W evict flt NoDrain xs.
+Proof.
+  destruct xs as [|x r]; intros H; [reflexivity|]. rewrite !outs_cons. cbn [draining].
+  assert (key_eqb (ukey x) k' = false) as -> by (apply key_eqb_neq; apply H; now left).
+  reflexivity.
+Qed.
+
+Lemma emit_dec_kents W evict e h rest k :
+  ssorted (e :: rest) = true -> ukey h = ukey e -> ukey e = k ->
+  emit_dec W evict h (kents k rest) =
+  (fst (emit_dec W evict h rest), dr_for k (snd (emit_dec W evict h rest)) rest).
+Proof.
+  intros HS Ek E. destruct rest as [|p r]; [reflexivity|].
+  destruct (key_ltb (ukey h) (ukey p)) eqn:KL.
+  - assert (kents k (p :: r) = []) as ->.
+    { apply kents_nil. intros x HI Xk. key_prop.
+      assert (key_lt (ukey h) (ukey x)) as L.
+      { eapply key_lt_le_trans; [exact KL|].
+        eapply ssorted_key_le; [eapply ssorted_tail; eauto | exact HI]. }
+      rewrite Ek, E, Xk in L. now apply key_lt_irrefl in L. }
+    unfold emit_dec. rewrite KL. reflexivity.
+  - pose proof (ssorted_peek_same_key _ _ _ _ HS Ek KL) as Ep.
+    assert (key_eqb (ukey p) k = true) as Kp by (apply key_eqb_eq; congruence).
+    rewrite kents_cons, Kp. unfold emit_dec. rewrite KL.
+    destruct (seq p <? W); [|reflexivity].
+    destruct (is_strong_tomb h && evict); [reflexivity|].
+    destruct (is_value p && is_weak_tomb h); cbn [fst snd dr_for]; rewrite ?Kp; reflexivity.
+Qed.
+
+(** the stream treats every key independently: its output restricted to key [k] is its
+    output on the versions of [k] alone *)
+Lemma key_local_gen W evict flt k : forall l dr,
+  ssorted l = true -> dr_ok dr l ->
+  kents k (outs W evict flt dr l) = outs W evict flt (dr_for k dr l) (kents k l).
+Proof.
+  induction l as [|e rest IH]; intros dr HS OK.
+  - destruct dr; reflexivity.
+  - pose proof (ssorted_tail _ _ HS) as HS'.
+    assert (forall k', (k' = k -> forall x, In x rest -> ukey x <> k) ->
+            outs W evict flt (Drain k') (kents k rest) = outs W evict flt NoDrain (kents k rest))
+      as Hirr.
+    { intros k' Hk'. apply outs_drain_irrelevant. intros x HI E.
+      apply kents_in in HI. destruct HI as [HI Xk].
+      apply (Hk' (eq_trans (eq_sym E) Xk) x HI Xk). }
+    rewrite outs_cons, kents_cons.
+    destruct (draining evict dr e) eqn:D.
+    + rewrite (IH _ HS' (dr_ok_tail _ _ _ OK)).
+      destruct (key_eqb (ukey e) k) eqn:K.
+      * destruct dr as [|k'|]; [discriminate| |].
+        -- cbn [dr_for after_drop]. rewrite outs_cons, D. reflexivity.
+        -- cbn [dr_for]. rewrite K. rewrite outs_cons. reflexivity.
+      * destruct dr as [|k'|]; [discriminate| |].
+        -- reflexivity.
+        -- cbn [dr_for after_drop]. rewrite K. reflexivity.
+    + assert (dr_for k dr (e :: rest) = dr) as ->
+          by (destruct dr; [reflexivity | reflexivity | discriminate]).
+      assert (ukey e <> k ->
+              outs W evict flt dr (kents k rest) = outs W evict flt NoDrain (kents k rest)) as Hdr.
+      { intros NE. destruct dr as [|k'|]; [reflexivity| |discriminate].
+        apply Hirr. intros -> x HI Xk.
+        pose proof (OK e (or_introl eq_refl)) as LE. apply key_le_lteq in LE.
+        destruct LE as [LT|EQ]; [|congruence].
+        assert (key_lt k (ukey x)) as L.
+        { eapply key_lt_le_trans; [exact LT|]. eapply ssorted_key_le; eauto. now right. }
+        rewrite Xk in L. now apply key_lt_irrefl in L. }
+      destruct (fst (apply_filter flt e)) as [h|] eqn:AF.
+      * destruct (apply_filter_some _ _ _ AF) as [Ek Es].
+        destruct (emit_dec_inv W evict e h rest HS Ek) as (OK' & _ & DN).
+        rewrite kents_app, (IH _ HS' OK').
+        destruct (key_eqb (ukey e) k) eqn:K.
+        -- key_prop. rewrite outs_cons, D, AF.
+           rewrite (emit_dec_kents W evict e h rest k HS Ek K). cbn [fst snd].
+           f_equal. unfold olist. destruct (fst (emit_dec W evict h rest)); [|reflexivity].
+           rewrite kents_cons.
+           assert (key_eqb (ukey h) k = true) as -> by (apply key_eqb_eq; congruence).
+           reflexivity.
+        -- key_prop.
+           assert (kents k (olist (fst (emit_dec W evict h rest)) h) = []) as ->.
+           { apply kents_nil. unfold olist. destruct (fst (emit_dec W evict h rest)).
+             - intros x [<-|[]]. congruence.
+             - intros x []. }
+           cbn [app]. rewrite (Hdr K).
+           destruct (emit_dec_dr W evict h rest) as [Hd|[Hd|Hd]]; rewrite Hd.
+           ++ reflexivity.
+           ++ cbn [dr_for]. apply Hirr. intros E. congruence.
+           ++ destruct (DN Hd) as (_ & p & r & -> & Ep & _). cbn [dr_for].
+              assert (key_eqb (ukey p) k = false) as -> by (apply key_eqb_neq; congruence).
+              reflexivity.
+      * rewrite (IH NoDrain HS' I). cbn [dr_for].
+        destruct (key_eqb (ukey e) k) eqn:K.
+        -- rewrite outs_cons, D, AF. reflexivity.
+        -- key_prop. symmetry. apply Hdr. exact K.
+Qed.
+
+Theorem cstream_key_local : forall W evict flt l k, ssorted l = true ->
+  kents k (fst (run_stream W evict flt l)) = fst (run_stream W evict flt (kents k l)).
+Proof.
+  intros W evict flt l k HS. unfold run_stream.
+  apply (key_local_gen W evict flt k l NoDrain HS I).
+Qed.
+
+(** ** The single-delete discipline *)
+
+(** weak tombstone or value *)
+Definition wv (e : entry) : bool := is_weak_tomb e || is_value e.
+
+(** newest first: only weak tombstones and values, strictly alternating *)
+Fixpoint alternating (xs : list entry) : bool :=
+  match xs with
+  | [] => true
+  | x :: r =>
+      wv x
+      && match r with [] => true | y :: _ => negb (vtype_eqb (ty x) (ty y)) end
+      && alternating r
+  end.
+
+Fixpoint last_value (xs : list entry) : bool :=
+  match xs with
+  | [] => false
+  | x :: r => match r with [] => is_value x | _ :: _ => last_value r end
+  end.
+
+(** what the stream does to a disciplined key history [xs], giving [o]:
+    entries are kept, adjacent (weak tombstone, value) pairs are cancelled; only with
+    [evict] (last level): everything below a kept value may be collected, and a final
+    weak tombstone is removed *)
+Inductive wred (evict : bool) : list entry -> list entry -> Prop :=
+| wr_nil : wred evict [] []
+| wr_keep x o xs : wred evict o xs -> wred evict (x :: o) (x :: xs)
+| wr_pair w v o xs : is_weak_tomb w = true -> is_value v = true ->
+    wred evict o xs -> wred evict o (w :: v :: xs)
+| wr_drain x xs : evict = true -> is_value x = true -> wred evict [x] (x :: xs)
+| wr_last w : evict = true -> is_weak_tomb w = true -> wred evict [] [w].
+
+Lemma wv_cases x : wv x = true -> ty x = Value \/ ty x = WeakTomb.
+Proof.
+  unfold wv, is_weak_tomb, is_value. destruct (ty x); cbn; try discriminate; auto.
+Qed.
+
+Lemma alt_cons_inv1 x r : alternating (x :: r) = true -> wv x = true /\ alternating r = true.
+Proof.
+  cbn [alternating]. intros H. apply andb_true_iff in H. destruct H as [H H2].
+  apply andb_true_iff in H. destruct H as [H1 _]. auto.
+Qed.
+
+Lemma alt_cons_inv x y r :
+  alternating (x :: y :: r) = true ->
+  alternating (y :: r) = true /\
+  ((ty x = Value /\ ty y = WeakTomb) \/ (ty x = WeakTomb /\ ty y = Value)).
+Proof.
+  intros H. destruct (alt_cons_inv1 _ _ H) as [Wx HA]. split; [exact HA|].
+  destruct (alt_cons_inv1 _ _ HA) as [Wy _].
+  change (alternating (x :: y :: r))
+    with (wv x && negb (vtype_eqb (ty x) (ty y)) && alternating (y :: r)) in H.
+  apply andb_true_iff in H. destruct H as [H _]. apply andb_true_iff in H. destruct H as [_ H].
+  destruct (wv_cases _ Wx) as [Ex|Ex], (wv_cases _ Wy) as [Ey|Ey];
+    rewrite Ex, Ey in H; try discriminate; auto.
+Qed.
+
+Lemma alt_cons_intro x z :
+  wv x = true -> alternating z = true ->
+  (forall y t, z = y :: t -> ty x <> ty y) -> alternating (x :: z) = true.
+Proof.
+  intros Wx HA H. cbn [alternating]. rewrite Wx, HA, andb_true_r. cbn [andb].
+  destruct z as [|y t]; [reflexivity|]. specialize (H y t eq_refl).
+  destruct (ty x), (ty y); try reflexivity; congruence.
+Qed.
+
+Lemma alt_app_l a b : alternating (a ++ b) = true -> alternating a = true.
+Proof.
+  induction a as [|x a IH]; [reflexivity|]. cbn [app]. intros H.
+  destruct (alt_cons_inv1 _ _ H) as [Wx HA]. specialize (IH HA).
+  apply alt_cons_intro; auto. intros y t ->. cbn [app] in H.
+  destruct (alt_cons_inv _ _ _ H) as [_ [[-> ->]|[-> ->]]]; discriminate.
+Qed.
+
+Lemma ty_value x : ty x = Value ->
+  is_value x = true /\ is_weak_tomb x = false /\ is_tomb x = false /\ is_strong_tomb x = false.
+Proof. unfold is_value, is_weak_tomb, is_tomb, is_strong_tomb. intros ->. auto. Qed.
+
+Lemma ty_weak x : ty x = WeakTomb ->
+  is_value x = false /\ is_weak_tomb x = true /\ is_tomb x = true /\ is_strong_tomb x = false.
+Proof. unfold is_value, is_weak_tomb, is_tomb, is_strong_tomb. intros ->. auto. Qed.
+
+Lemma is_value_ty x : is_value x = true -> ty x = Value.
+Proof. unfold is_value. destruct (ty x); try discriminate; reflexivity. Qed.
+Lemma is_weak_ty x : is_weak_tomb x = true -> ty x = WeakTomb.
+Proof. unfold is_weak_tomb. destruct (ty x); try discriminate; reflexivity. Qed.
+
+Lemma outs_drain_all W flt k xs :
+  (forall x, In x xs -> ukey x = k) -> outs W true flt (Drain k) xs = [].
+Proof.
+  induction xs as [|x r IH]; intros H; [reflexivity|]. rewrite outs_cons. cbn [draining orb].
+  assert (key_eqb (ukey x) k = true) as -> by (apply key_eqb_eq; apply H; now left).
+  cbn [andb after_drop]. apply IH. intros y Hy. apply H. now right.
+Qed.
+
+Lemma outs_drain_stops W flt k p r :
+  is_weak_tomb p = true ->
+  outs W false flt (Drain k) (p :: r) = outs W false flt NoDrain (p :: r).
+Proof.
+  intros Hw. rewrite !outs_cons. cbn [draining orb]. rewrite Hw. cbn [negb].
+  rewrite andb_false_r. reflexivity.
+Qed.
+
+Lemma key_ltb_irrefl k : key_ltb k k = false.
+Proof. unfold key_ltb. now rewrite key_cmp_refl. Qed.
+
+(** the stream on a disciplined single-key history *)
+Lemma weak_single W evict k : forall n xs, (length xs <= n)%nat ->
+  ssorted xs = true -> (forall x, In x xs -> ukey x = k) -> alternating xs = true ->
+  wred evict (outs W evict no_filter NoDrain xs) xs.
+Proof.
+  induction n as [|n IH]; intros xs Hlen HS HK HA.
+  - destruct xs; [constructor | cbn in Hlen; lia].
+  - destruct xs as [|x rest]; [constructor|].
+    rewrite outs_cons. cbn [draining]. rewrite apply_filter_no_filter. cbn [fst].
+    destruct rest as [|p r].
+    + unfold emit_dec. cbn [fst snd]. rewrite outs_nil, app_nil_r.
+      destruct (alt_cons_inv1 _ _ HA) as [Wx _].
+      destruct (wv_cases _ Wx) as [Ex|Ex].
+      * destruct (ty_value _ Ex) as (_ & _ & -> & _). cbn. apply wr_keep, wr_nil.
+      * destruct (ty_weak _ Ex) as (_ & Hw & -> & _). destruct evict; cbn.
+        -- now apply wr_last.
+        -- apply wr_keep, wr_nil.
+    + destruct (alt_cons_inv _ _ _ HA) as [HA' Kinds].
+      pose proof (ssorted_tail _ _ HS) as HS'.
+      assert (forall y, In y (p :: r) -> ukey y = k) as HK' by (intros y Hy; apply HK; now right).
+      assert (ukey x = k) as Kx by (apply HK; now left).
+      assert (ukey p = k) as Kp by (apply HK'; now left).
+      cbn [length] in Hlen.
+      unfold emit_dec. rewrite Kx, Kp, key_ltb_irrefl.
+      destruct (seq p <? W).
+      * destruct Kinds as [[Ex Ep]|[Ex Ep]].
+        -- (* value over an expired weak tombstone *)
+           destruct (ty_value _ Ex) as (Vx & Wx & _ & ->).
+           destruct (ty_weak _ Ep) as (-> & Wp & _ & _). cbn [andb fst snd olist app].
+           destruct evict.
+           ++ rewrite outs_drain_all; [|exact HK']. now apply wr_drain.
+           ++ rewrite (outs_drain_stops W no_filter k p r Wp).
+              apply wr_keep. apply IH; auto. cbn [length]. lia.
+        -- (* weak tombstone over an expired value: exactly the pair goes *)
+           destruct (ty_weak _ Ex) as (_ & Wx & _ & ->).
+           destruct (ty_value _ Ep) as (Vp & _ & _ & _). rewrite Vp, Wx.
+           cbn [andb fst snd olist app]. rewrite outs_cons. cbn [draining after_drop].
+           apply wr_pair; auto. apply IH.
+           ++ lia.
+           ++ eapply ssorted_tail; eauto.
+           ++ intros y Hy. apply HK'. now right.
+           ++ now destruct (alt_cons_inv1 _ _ HA').
+      * cbn [fst snd olist app]. apply wr_keep. apply IH; auto. cbn [length]. lia.
+Qed.
+
+Lemma wred_subseq evict o xs : wred evict o xs -> subseq o xs.
+Proof.
+  induction 1.
+  - constructor.
+  - now apply subseq_keep.
+  - now apply subseq_skip, subseq_skip.
+  - apply subseq_keep, subseq_nil_l.
+  - apply subseq_skip, subseq_nil.
+Qed.
+
+(** head shape: the output starts like the input, up to cancelled pairs *)
+Definition hk (o xs : list entry) : Prop :=
+  match xs with
+  | [] => o = []
+  | x :: _ => if is_value x then exists t, o = x :: t
+              else o = [] \/ exists w t, o = w :: t /\ is_weak_tomb w = true
+  end.
+
+Lemma hk_refl z : alternating z = true -> hk z z.
+Proof.
+  destruct z as [|x t]; [reflexivity|]. intros HA. cbn [hk].
+  destruct (alt_cons_inv1 _ _ HA) as [Wx _]. destruct (wv_cases _ Wx) as [Ex|Ex].
+  - destruct (ty_value _ Ex) as (-> & _). eauto.
+  - destruct (ty_weak _ Ex) as (-> & Hw & _). right. eauto.
+Qed.
+
+Lemma wred_alt evict o xs : wred evict o xs ->
+  forall d, alternating (xs ++ d) = true -> (evict = true -> d = []) ->
+  alternating (o ++ d) = true /\ hk (o ++ d) (xs ++ d).
+Proof.
+  induction 1 as [|x o xs HR IH|w v o xs Hw Hv HR IH|x xs Hev Hv|w Hev Hw]; intros d HA Hd.
+  - cbn [app] in *. split; [exact HA | now apply hk_refl].
+  - cbn [app] in *. destruct (alt_cons_inv1 _ _ HA) as [Wx HA'].
+    destruct (IH d HA' Hd) as [A1 A2]. split.
+    + apply alt_cons_intro; auto. intros y t Ey.
+      destruct (xs ++ d) as [|z zs] eqn:Z.
+      * cbn [hk] in A2. rewrite A2 in Ey. discriminate.
+      * destruct (alt_cons_inv _ _ _ HA) as [_ Kinds]. cbn [hk] in A2.
+        destruct Kinds as [[Ex Ez]|[Ex Ez]].
+        -- destruct (ty_weak _ Ez) as (Vz & _). rewrite Vz in A2.
+           destruct A2 as [A2|(w & t' & A2 & Hw)]; rewrite A2 in Ey; [discriminate|].
+           injection Ey as <- _. rewrite Ex, (is_weak_ty _ Hw). discriminate.
+        -- destruct (ty_value _ Ez) as (Vz & _). rewrite Vz in A2.
+           destruct A2 as (t' & A2). rewrite A2 in Ey. injection Ey as <- _.
+           rewrite Ex, Ez. discriminate.
+    + cbn [hk]. destruct (wv_cases _ Wx) as [Ex|Ex].
+      * destruct (ty_value _ Ex) as (-> & _). eauto.
+      * destruct (ty_weak _ Ex) as (-> & Hw & _). right. eauto.
+  - cbn [app] in *. destruct (alt_cons_inv _ _ _ HA) as [HA1 _].
+    destruct (alt_cons_inv1 _ _ HA1) as [_ HA2].
+    destruct (IH d HA2 Hd) as [A1 A2]. split; [exact A1|].
+    cbn [hk]. destruct (ty_weak _ (is_weak_ty _ Hw)) as (-> & _).
+    destruct (xs ++ d) as [|z zs] eqn:Z.
+    * left. exact A2.
+    * cbn [hk] in A2. destruct (alt_cons_inv _ _ _ HA1) as [_ [[_ Ez]|[Ev _]]].
+      -- destruct (ty_weak _ Ez) as (Vz & _). rewrite Vz in A2. exact A2.
+      -- rewrite (is_value_ty _ Hv) in Ev. discriminate.
+  - rewrite (Hd Hev) in *. rewrite app_nil_r in *. cbn [app].
+    destruct (alt_cons_inv1 _ _ HA) as [Wx _]. split.
+    + cbn [alternating]. rewrite Wx. reflexivity.
+    + cbn [hk]. rewrite Hv. eauto.
+  - rewrite (Hd Hev) in *. cbn [app]. split; [reflexivity|].
+    cbn [hk]. destruct (ty_weak _ (is_weak_ty _ Hw)) as (-> & _). now left.
+Qed.
+
+Lemma hk_visible o xs :
+  hk o xs -> alternating xs = true -> visible (hd_error o) = visible (hd_error xs).
+Proof.
+  destruct xs as [|x t]; cbn [hk]; [intros ->; reflexivity|]. intros H HA.
+  destruct (alt_cons_inv1 _ _ HA) as [Wx _]. destruct (wv_cases _ Wx) as [Ex|Ex].
+  - destruct (ty_value _ Ex) as (Vx & _). rewrite Vx in H. destruct H as (t' & ->). reflexivity.
+  - destruct (ty_weak _ Ex) as (Vx & _ & Tx & _). rewrite Vx in H. cbn [hd_error visible].
+    rewrite Tx. destruct H as [->|(w & t' & -> & Hw)]; [reflexivity|].
+    cbn [hd_error visible]. destruct (ty_weak _ (is_weak_ty _ Hw)) as (_ & _ & -> & _).
+    reflexivity.
+Qed.
+
+Lemma last_value_nonempty xs : last_value xs = true -> xs <> [].
+Proof. destruct xs; [discriminate | discriminate]. Qed.
+
+Lemma wred_empty evict o xs :
+  wred evict o xs -> o = [] -> xs = [] \/ evict = true \/ last_value xs = true.
+Proof.
+  induction 1 as [|x o xs HR IH|w v o xs Hw Hv HR IH|x xs Hev Hv|w Hev Hw]; intros E.
+  - now left.
+  - discriminate.
+  - right. destruct (IH E) as [->|[H|H]].
+    + right. exact Hv.
+    + now left.
+    + right. destruct xs as [|y ys]; [discriminate|]. exact H.
+  - discriminate.
+  - right; now left.
+Qed.
+
+(** the exact effect of the stream on a disciplined key *)
+Theorem cstream_weak_red : forall W evict l out log k, ssorted l = true ->
+  run_stream W evict no_filter l = (out, log) -> alternating (kents k l) = true ->
+  wred evict (kents k out) (kents k l).
+Proof.
+  intros W evict l out log k HS HR HA. apply run_stream_outs in HR. destruct HR as [-> _].
+  rewrite (key_local_gen W evict no_filter k l NoDrain HS I). cbn [dr_for].
+  apply (weak_single W evict k (length (kents k l))); auto.
+  - now apply kents_ssorted.
+  - intros x HI. now apply kents_in in HI.
+Qed.
+
+(** in a sorted list, a snapshot above all versions of [k] reads the first version of [k] *)
+Lemma newest_hd k S o :
+  ssorted o = true -> (forall e, In e o -> ukey e = k -> seq e < S) ->
+  newest k S o = hd_error (kents k o).
+Proof.
+  intros HS HSn. rewrite newest_filter_key. fold (kents k o).
+  pose proof (kents_ssorted k o HS) as HS'.
+  assert (forall x, In x (kents k o) -> ukey x = k /\ seq x < S) as HK.
+  { intros x HI. apply kents_in in HI. destruct HI. auto. }
+  destruct (kents k o) as [|y r]; [reflexivity|]. cbn [hd_error].
+  destruct (HK y (or_introl eq_refl)) as [Yk Ys].
+  apply newest_head; auto. intros x XI Xk.
+  eapply ssorted_same_key_seq; eauto. congruence.
+Qed.
+
+(** (b) single delete: a disciplined key keeps its reading, keeps the discipline, and
+    vanishes completely only at the last level or when its pairs cancel completely *)
+Theorem cstream_weak_top : forall W evict l out log k, ssorted l = true ->
+  run_stream W evict no_filter l = (out, log) -> alternating (kents k l) = true ->
+  subseq (kents k out) (kents k l) /\
+  alternating (kents k out) = true /\
+  hk (kents k out) (kents k l) /\
+  (kents k out = [] -> kents k l = [] \/ evict = true \/ last_value (kents k l) = true) /\
+  (forall S, (forall e, In e l -> ukey e = k -> seq e < S) ->
+     match kents k l with
+     | [] => newest k S out = None
+     | x :: _ => if is_value x then newest k S out = Some x
+                 else visible (newest k S out) = None
+     end).
+Proof.
+  intros W evict l out log k HS HR HA.
+  pose proof (cstream_weak_red _ _ _ _ _ k HS HR HA) as RED.
+  assert (evict = true -> @nil entry = []) as Hnil by reflexivity.
+  pose proof (wred_alt _ _ _ RED [] ) as ALT. rewrite !app_nil_r in ALT.
+  destruct (ALT HA Hnil) as [A1 A2].
+  split; [eapply wred_subseq; eauto|]. split; [exact A1|]. split; [exact A2|].
+  split; [intros E; eapply wred_empty; eauto|].
+  intros S HSn.
+  assert (newest k S out = hd_error (kents k out)) as ->.
+  { apply newest_hd; [eapply cstream_out_sorted; eauto|].
+    intros e HI. apply HSn. eapply cstream_out_in; eauto. }
+  destruct (kents k l) as [|x t] eqn:KL; cbn [hk] in A2.
+  - rewrite A2. reflexivity.
+  - destruct (is_value x) eqn:Vx.
+    + destruct A2 as (t' & ->). reflexivity.
+    + destruct A2 as [->|(w & t' & -> & Hw)]; [reflexivity|]. cbn [hd_error visible].
+      destruct (ty_weak _ (is_weak_ty _ Hw)) as (_ & _ & -> & _). reflexivity.
+Qed.
+
+(** composition with what lies beneath the compaction output: if the key's whole
+    history (compacted part, then [deeper]) is disciplined, the reading is unchanged and
+    the whole history stays disciplined.  With [evict] (last level) nothing lies deeper. *)
+Theorem cstream_weak_view_with_deeper : forall W evict l out log k deeper, ssorted l = true ->
+  run_stream W evict no_filter l = (out, log) ->
+  alternating (kents k l ++ deeper) = true -> (evict = true -> deeper = []) ->
+  visible (hd_error (kents k out ++ deeper)) = visible (hd_error (kents k l ++ deeper)) /\
+  alternating (kents k out ++ deeper) = true.
+Proof.
+  intros W evict l out log k deeper HS HR HA Hd.
+  pose proof (cstream_weak_red _ _ _ _ _ k HS HR (alt_app_l _ _ HA)) as RED.
+  destruct (wred_alt _ _ _ RED deeper HA Hd) as [A1 A2].
+  split; [now apply hk_visible | exact A1].
+Qed.
+
+(** (c) the finding (F3): the stream as shipped in 3.1.9 breaks a disciplined history.
+    History of key a, oldest first: put@0, remove_weak@1, put@2, remove_weak@3; [V@0] lies
+    in a deeper table, the rest is compacted with a high watermark.  The shipped stream
+    drops [W@1] together with the pair ([W@3], [V@2]), so [V@0] becomes visible again;
+    the repaired stream keeps [W@1]. *)
+Lemma cstream_old_resurrects :
+  exists W l deeper k,
+    ssorted (l ++ deeper) = true /\ alternating (kents k (l ++ deeper)) = true /\
+    visible (hd_error (kents k l ++ deeper)) = None /\
+    fst (cstream_old W false no_filter None l) = [] /\
+    visible (hd_error (kents k (fst (cstream_old W false no_filter None l)) ++ deeper))
+      = Some (Examples.V Examples.ka 0 [0]) /\
+    fst (run_stream W false no_filter l) = [Examples.Wt Examples.ka 1] /\
+    visible (hd_error (kents k (fst (run_stream W false no_filter l)) ++ deeper)) = None.
+Proof.
+  exists 1000,
+    [Examples.Wt Examples.ka 3; Examples.V Examples.ka 2 [2]; Examples.Wt Examples.ka 1],
+    [Examples.V Examples.ka 0 [0]], Examples.ka.
+  vm_compute. repeat split; reflexivity.
+Qed.
+
+Example cstream_weak_ex :
+  let ka := Examples.ka in
+  let l := [Examples.V ka 9 [9]; Examples.Wt ka 8; Examples.V ka 7 [7]; Examples.Wt ka 4;
+            Examples.V ka 3 [3]; Examples.Wt ka 2; Examples.V Examples.kb 5 [5]] in
+  ssorted l = true /\ alternating (kents ka l) = true /\
+  fst (run_stream 5 false no_filter l)
+    = [Examples.V ka 9 [9]; Examples.Wt ka 8; Examples.V ka 7 [7]; Examples.Wt ka 2;
+       Examples.V Examples.kb 5 [5]] /\
+  fst (run_stream 5 true no_filter l)
+    = [Examples.V ka 9 [9]; Examples.Wt ka 8; Examples.V ka 7 [7]; Examples.V Examples.kb 5 [5]].
+Proof. vm_compute. auto. Qed.
+
+(** * Assumptions *)
+Print Assumptions cstream_examples.
+Print Assumptions cstream_top_view_refuted_weak.
+Print Assumptions cstream_top_view_noweak.
+Print Assumptions cstream_top_view_nofilter.
+Print Assumptions cstream_mvcc.
+Print Assumptions cstream_mvcc_tomb.
+Print Assumptions cstream_mvcc_tomb_hidden.
+Print Assumptions cstream_mvcc_view.
+Print Assumptions cstream_mvcc_view_refuted_weak.
+Print Assumptions cstream_snapshot_above_W_refuted.
+Print Assumptions cstream_out_sorted.
+Print Assumptions cstream_out_keys.
+Print Assumptions cstream_replace_keeps_seq.
+Print Assumptions cstream_out_subseq.
+Print Assumptions cstream_out_in.
+Print Assumptions cstream_log_subseq.
+Print Assumptions cstream_filter_domain.
+Print Assumptions cstream_filter_domain_in.
+Print Assumptions cstream_log_exact.
+Print Assumptions cstream_log_exact_nontomb.
+Print Assumptions cstream_log_count.
+Print Assumptions merge_sorted_perm.
+Print Assumptions merge_sorted_sorted_nodup.
+Print Assumptions merge_sorted_sorted.
+Print Assumptions cstream_key_local.
+Print Assumptions cstream_weak_red.
+Print Assumptions cstream_weak_top.
+Print Assumptions cstream_weak_view_with_deeper.
+Print Assumptions cstream_old_resurrects.
